@@ -161,6 +161,26 @@ def evaluate(r, trains, edges, max_tau, mrts, be, rank=()):
                             "a higher threshold keeps more spikes", rank)
                 return
         prev_kept = K
+    # a list may contain the same object several times, and reconciliation may be switched off
+    if n >= 3 and trains[0] == trains[1] and mrts != "auto":
+        same = [sts[0], sts[0]] + sts[2:]
+        for thr in thresholds(n):
+            try:
+                a = spk.filter_by_spike_sync(sts, thr, **kw)
+                b = spk.filter_by_spike_sync(same, thr, Reconcile=False, **kw)
+            except Exception as e:
+                r.violation(ID, "exception", be, "exception.same_object/%s/%s" % (be, cls),
+                            dict(case, threshold=thr), "trains", "%s: %s" % (type(e).__name__, e),
+                            "filter raised for a list holding the same train object twice", rank)
+                break
+            ka = [np.asarray(s.spikes, float).tolist() for s in a]
+            kb = [np.asarray(s.spikes, float).tolist() for s in b]
+            if ka != kb:
+                r.violation(ID, "same_object", be, "same_object/%s/%s" % (be, cls),
+                            dict(case, threshold=thr, Reconcile=False), ka, kb,
+                            "a list holding the same train object twice (Reconcile=False) is "
+                            "filtered differently from equal copies", rank)
+                break
     if [(s.spikes.tobytes(), s.t_start, s.t_end) for s in sts] != before:
         r.violation(ID, "modifies", be, "modifies/%s/%s" % (be, cls), case, "inputs unchanged",
                     [s.spikes.tolist() for s in sts], "the filter modified its input trains", rank)
